@@ -173,6 +173,11 @@ class SegwitChecker(SolutionChecker):
                 raise ScriptError("witness unexpected", errno.WITNESS_UNEXPECTED)
         else:
             witness_program = puzzle_script[2:]
+            if not is_p2sh and len(tx_context.solution_script) > 0:
+                # BIP141: the scriptSig of a native witness spend must be empty (not merely leave nothing on the stack)
+                raise ScriptError(
+                    "script sig is not blank on segwit input", errno.WITNESS_MALLEATED
+                )
             if len(solution_stack) > 0:
                 err = (
                     errno.WITNESS_MALLEATED_P2SH if is_p2sh else errno.WITNESS_MALLEATED
